@@ -120,6 +120,11 @@ def run_case(prop_id, case_json, seed, active_known):
         except Inconclusive as e:
             res["status"] = "inconclusive"
             res["inconclusive"] = str(e)
+        except Exception as e:
+            # an exception escaping the harness itself: the case is inconclusive, but violations found (and replayable) before it are kept
+            res["status"] = "error"
+            res["inconclusive"] = "engine/harness error: %s: %s" % (type(e).__name__, e)
+            res["traceback"] = traceback.format_exc()[-3000:]
         finally:
             explore.CURRENT = None
         st = ex.stats
